@@ -226,3 +226,18 @@ _m("C18",
    "Jacobian (or a sensitivity) of a network with a non-vanishing higher derivative, so that stencil, orientation and "
    "scheme order are observable.",
    _COMMON + ["parameters given as numbers are turned into named parameters so that each can be addressed; dummy names are not probed"])
+
+_m("C15",
+   "Hypothesis builds mass-action models (2..4 species, 1..4 reactions incl. bimolecular ones, all rate constants named), "
+   "1..4 trajectories (a single data frame or a list) with per-trajectory time grids of equal length 3..12 (different "
+   "start times and steps), arbitrary data values for every species column, 1..3 measured species in arbitrary order, "
+   "norm order 1..3, per-trajectory initial conditions (partial dictionaries) and parameter conditions (same key set; "
+   "a separately labelled class with differing key sets), priors from uniform / gaussian / log-uniform with or without "
+   "'positive', and sequences of 1..6 parameter vectors with repeats and out-of-support points.  Oracle: LL_data[n,t,m] "
+   "equals frame_n[measurement_m][t] exactly; cost = reference log-prior - (sum |data - sim|^p)^(1/p) with sim from "
+   "DOP853 (rtol 1e-10) on the reference right-hand side, parameters = defaults <- theta <- condition_n, started at each "
+   "trajectory's first time (1e-5 relative); -inf outside the support; a repeated theta gives the same value; permuting "
+   "the measurement list, or the trajectories with their conditions and data, leaves the value unchanged.  One case in "
+   "six uses the stochastic cost: the reference replays the identical seeded SSA runs on fresh models.  Non-trivial: "
+   ">= 2 measured species, or >= 2 trajectories with distinct conditions.",
+   _COMMON + ["models have no rules", "the stochastic reference uses bioscrape's own SSA on fresh models (alignment and bookkeeping are what is tested there)"])
